@@ -185,12 +185,9 @@ func checkRef(c *explore.Ctx, s []byte, limit int, r *ctlReader, setting int, si
 	case !eof && o.err == io.EOF:
 		c.Fail("reader-error-swallowed:"+site, "the reader failed with %v but the Decoder reports io.EOF after %d values (%s)", r.term, len(o.vals), desc)
 	case !eof && !errors.Is(o.err, r.term):
-		// acceptable only if the delivered bytes are themselves malformed (a syntax error can come first)
-		if clean || len(o.vals) < len(want) {
-			// the delivered bytes are a clean sequence of values, or values are still outstanding: the reader's error must surface
-			if isMalformed(d) {
-				break
-			}
+		// acceptable only if the delivered bytes are themselves malformed (a syntax error can come first);
+		// bytes that merely stop inside a value are not malformed: the reader's error must surface
+		if !isMalformed(d) {
 			c.Fail("reader-error-replaced:"+site, "the reader failed with %v but the Decoder returns %v after %d of %d values (%s)", r.term, o.err, len(o.vals), len(want), desc)
 		}
 	}
@@ -222,7 +219,7 @@ func isMalformed(d []byte) bool {
 			continue
 		}
 		var se *stdjson.SyntaxError
-		return errors.As(err, &se) && err != io.ErrUnexpectedEOF && !strings.Contains(err.Error(), "unexpected end")
+		return errors.As(err, &se) && !strings.Contains(err.Error(), "unexpected end")
 	}
 }
 
